@@ -96,6 +96,7 @@ func panicSite() string {
 }
 
 func handleReq(kind string, f []string, home string) string {
+	poison()
 	switch kind {
 	case "lex":
 		return implLex(unhx(f[0]))
@@ -176,7 +177,33 @@ func hxTok(s string) string {
 	return hx(s)
 }
 
+// poison: calls that a correct implementation forgets completely (C16) but that leave something
+// behind when state is carried between calls: a loop that fails after it has produced output, a
+// render refused for an unsupported value after valid keys, assignments without data, a source
+// that does not parse (twice).  Run before every request.
+func poison() {
+	defer func() { _ = recover() }()
+	textwire.EvaluateString("P@each(v in [1, 2, 3])<{{ v }}>@if(v == 2){{ nosuchPoison }}@end@end", nil)
+	textwire.EvaluateString("P@for(i = 0; i < 3; i++)[{{ i }}]@if(i == 1){{ 1 / 0 }}@end@end", nil)
+	textwire.EvaluateString("{{ poisonVar = 1 }}{{ x = \"s\" }}{{ poisonVar }}", nil)
+	textwire.EvaluateString("{{ 1 + }}", nil)
+	textwire.EvaluateString("{{ 1 + }}", nil)
+	textwire.EvaluateString("{{ v = 2.5 }}{{ n = \"s\" }}", map[string]any{})
+	// last, so that nothing after it tidies up what a refused render leaves behind
+	textwire.EvaluateString("{{ aPoison }}", map[string]any{"aPoison": "x", "who": 1.5, "d": "stale", "x": true, "v": "s", "n": "s", "flag": "s",
+		"items": 1, "obj": 1, "r": 1, "xs": "s", "t": 1.5, "name": 7, "zPoison": make(chan int)})
+}
+
 func implEval(src string, data *GV) string {
+	first := implEvalOnce(src, data)
+	second := implEvalOnce(src, data)
+	if first != second {
+		return "UNSTABLE the same call answered differently the second time: first=" + first + " second=" + second
+	}
+	return first
+}
+
+func implEvalOnce(src string, data *GV) string {
 	textwire.VerifReset()
 	dm := data.DataMap()
 	out, err := textwire.EvaluateString(src, dm)
@@ -357,6 +384,18 @@ func implOp(op *term, tpl **textwire.Template, cwd string) string {
 		textwire.VerifReset()
 		*tpl = nil
 		return "RESETOK"
+	case "WRITE":
+		fp := filepath.Join(cwd, unhx(a[0].atom))
+		os.MkdirAll(filepath.Dir(fp), 0o755)
+		if err := os.WriteFile(fp, []byte(unhx(a[1].atom)), 0o644); err != nil {
+			return "HARNESSERR " + err.Error()
+		}
+		return "WRITEOK"
+	case "RM":
+		if err := os.Remove(filepath.Join(cwd, unhx(a[0].atom))); err != nil {
+			return "HARNESSERR " + err.Error()
+		}
+		return "RMOK"
 	case "REG":
 		fid, _ := strconv.Atoi(a[2].atom)
 		if err := register(a[0].atom, unhx(a[1].atom), fid); err != nil {
@@ -432,11 +471,17 @@ func implConc(cwd string, fsT *term, f []string, home string) string {
 	}
 	os.Chdir(cwd)
 	textwire.VerifReset()
-	var tpl *textwire.Template
+	// tpl serves the concurrent calls and is not touched before them (its first renders overlap);
+	// tplBase is a second Template loaded from the same tree, on which the calls are run alone
+	var tpl, tplBase *textwire.Template
 	i := 0
 	for ; i < len(ops) && ops[i] != "--"; i++ {
-		if r := implOp(parseTerm(ops[i]), &tpl, cwd); strings.HasPrefix(r, "NEWERR") || strings.HasPrefix(r, "REGERR") {
+		op := parseTerm(ops[i])
+		if r := implOp(op, &tpl, cwd); strings.HasPrefix(r, "NEWERR") || strings.HasPrefix(r, "REGERR") {
 			return "CONC setup failed: " + r
+		}
+		if len(op.list) > 0 && op.list[0].atom == "NEW" {
+			implOp(op, &tplBase, cwd)
 		}
 	}
 	var work []*term
@@ -486,7 +531,8 @@ func implConc(cwd string, fsT *term, f []string, home string) string {
 	}
 	base := make([]string, len(work))
 	for k, w := range work {
-		base[k] = safely(func() string { return implOp(w, &tpl, cwd) })
+		t := tplBase
+		base[k] = safely(func() string { return implOp(w, &t, cwd) })
 	}
 	type bad struct {
 		k         int
@@ -525,6 +571,13 @@ func implConc(cwd string, fsT *term, f []string, home string) string {
 	case b := <-errs:
 		return fmt.Sprintf("CONC mismatch op=%d got=%s want=%s", b.k, b.got, b.want)
 	default:
+	}
+	// whatever the overlapping first renders left in the Template shows in later calls too
+	for k, w := range work {
+		t := tpl
+		if got := safely(func() string { return implOp(w, &t, cwd) }); got != base[k] {
+			return fmt.Sprintf("CONC mismatch after the concurrent phase op=%d got=%s want=%s", k, got, base[k])
+		}
 	}
 	return fmt.Sprintf("CONC ok goroutines=%d ops=%d rounds=%d", G, len(work), rounds)
 }
